@@ -12,7 +12,10 @@ O="$(mktemp -d /var/tmp/mutout-XXXXXX)"
 cleanup() { git -C /repo worktree remove --force "$W" >/dev/null 2>&1; rm -rf "$W" "$O"; }
 trap cleanup EXIT
 if ! git -C "$W" apply "$d/patch.diff" 2>/dev/null; then
-  if ! git -C "$W" apply --3way "$d/patch.diff" >/dev/null 2>&1; then echo "MUTANT $d: patch does not apply to HEAD"; exit 3; fi
+  if ! git -C "$W" apply --3way "$d/patch.diff" >/dev/null 2>&1; then
+    # context moved by a later fix: commit in /repo
+    if ! (cd "$W" && git reset -q --hard && patch -s -p1 --fuzz=3 --no-backup-if-mismatch < "$d/patch.diff" >/dev/null 2>&1); then echo "MUTANT $d: patch does not apply to HEAD"; exit 3; fi
+  fi
 fi
 (cd "$W" && go build ./... ) || { echo "MUTANT $d: does not build"; exit 3; }
 if (cd "$W" && go test -vet=off -count=1 ./... >/dev/null 2>&1); then suite=pass; else suite=FAIL; fi
